@@ -54,3 +54,11 @@ Theorem C15_tree_saved_last : forall o n,
   exists pre, Forall (fun a => is_out a = false) pre /\
     run_plan o n = pre ++ (if ro_save_tree o then [ASaveTree; ASave] else [ASave]).
 Proof. exact run_plan_tree_last. Qed.
+
+(* the option normalisation and the plan are the ones in the source: Gen/GCli.v is regenerated from
+   bblean/cli.py:_run on every run (normalisation translated; plan extracted statement by statement) *)
+From BB Require Import Gen.GCli Proofs.GenTieCli.
+Theorem C15_source_tie_refine_options : forall n r, GCli.norm_refine n r = Cli.norm_refine n r.
+Proof. exact tie_norm_refine. Qed.
+Theorem C15_source_tie_plan : forall o n, GCli.run_plan o n = Cli.run_plan o n.
+Proof. exact tie_run_plan. Qed.
